@@ -19,7 +19,6 @@ structure SndG where
 
 structure RcvG where
   adv : Int := 0                -- what the peer was told: advertised limit for this kind of stream, then every non-zero MAX_STREAM_DATA sent
-  advHi : Int := 0              -- the most the implementation may legitimately enforce (spec-driven client: one window covers all kinds)
   maxws : Int := 0
   highest : Int := 0
   final : Option Int := none
@@ -27,6 +26,7 @@ structure RcvG where
   cancelled : Bool := false
   reset : Bool := false
   reliable : Int := 0           -- reliable size of the RESET_STREAM_AT frames accepted (only ever reduced)
+  updDue : Bool := false        -- the application has consumed everything the peer was told it may send: MAX_STREAM_DATA is due
 
 structure G where
   started : Bool := false
@@ -36,7 +36,6 @@ structure G where
   cCredits : List Int := [0]
   cBlockedAt : List Int := []
   cAdv : Int := 0
-  cAdvHi : Int := 0
   spec : Option Params := none   -- spec-driven client: the parameters the QUICSpec advertises
   cMaxws : Int := 0
   dead : Bool := false
@@ -70,10 +69,9 @@ def recvExpect (g : G) (r : RcvG) (endOff : Int) (fin : Bool) (isReset : Bool) :
     | none => (fin || isReset) && decide (endOff < r.highest)
   let cHighest := sumI (g.rcv.map (·.highest))
   let isNew := decide (endOff > r.highest)
-  -- beyond what the peer was told → may be refused; beyond what may legitimately be enforced → must be refused
-  let beyondLo : Bool := isNew && (decide (endOff > r.adv) || decide (cHighest - r.highest + endOff > g.cAdv))
-  let beyondHi : Bool := isNew && (decide (endOff > r.advHi) || decide (cHighest - r.highest + endOff > g.cAdvHi))
-  if finalErr then "E:FINAL_SIZE_ERROR" else if beyondHi then "E:FLOW_CONTROL_ERROR" else if beyondLo then "" else "ok"
+  -- beyond what the peer was told (for this kind of stream / for the connection) → must be refused; everything else accepted
+  let beyond : Bool := isNew && (decide (endOff > r.adv) || decide (cHighest - r.highest + endOff > g.cAdv))
+  if finalErr then "E:FINAL_SIZE_ERROR" else if beyond then "E:FLOW_CONTROL_ERROR" else "ok"
 
 def packToken (g : G) (tok : String) : G × List Fail × List String :=
   match tok.splitOn ":" with
@@ -117,7 +115,7 @@ def packToken (g : G) (tok : String) : G × List Fail × List String :=
         let f1 := if v < r.adv then [fail "advertised_monotone" s!"receive stream {j}: MAX_STREAM_DATA {v} after {r.adv}"] else []
         let f2 := if !g.dead && v > r.credited + r.maxws then
           [fail "advertised_honest" s!"receive stream {j}: MAX_STREAM_DATA {v} > consumed {r.credited} + maximum window {r.maxws}"] else []
-        ({ g with rcv := g.rcv.set j { r with adv := max r.adv v, advHi := max r.advHi v } }, f1 ++ f2, ["pack:max-stream-data"])
+        ({ g with rcv := g.rcv.set j { r with adv := max r.adv v, updDue := false } }, f1 ++ f2, ["pack:max-stream-data"])
   | ["RS", i, fin, rel] =>
     let i := natOf i; let fin := intOf fin; let rel := intOf rel
     match g.snd[i]? with
@@ -134,7 +132,7 @@ def packToken (g : G) (tok : String) : G × List Fail × List String :=
   | "MD" :: _ => (g, [], ["pack:max-data"])
   | _ => (g, [], [])
 
-def step (g : G) (op impl : String) : G × StepOut :=
+def stepCore (g : G) (op impl : String) : G × StepOut :=
   let w := words op
   let res := words ((impl.splitOn " | ").headD "")
   let echo (g' : G) (tags : List String) (fails : List Fail) : G × StepOut :=
@@ -158,7 +156,7 @@ def step (g : G) (op impl : String) : G × StepOut :=
     let peer : Params := { maxData := intOf pmd, bidiLocal := intOf pbl, bidiRemote := intOf pbr, uni := intOf pu }
     echo { g with started := true, client := persp == "c", peer := peer,
                   cfg := ⟨intOf srw, intOf smax, intOf crw, intOf cmax⟩,
-                  cAdv := intOf crw, cAdvHi := intOf crw, cMaxws := max (intOf crw) (intOf cmax),
+                  cAdv := intOf crw, cMaxws := max (intOf crw) (intOf cmax),
                   cCredit := peer.maxData, cCredits := [peer.maxData] } ["init"] []
   | ["uinit", _base, crw, cmax, srw, smax, _, _, _, _, pmd, pbl, pbr, pu] =>
     if res.headD "" != "ok" then echo g ["uinit:error"] [] else
@@ -166,15 +164,14 @@ def step (g : G) (op impl : String) : G × StepOut :=
     let advL := (((res.findSome? fun x => if x.startsWith "adv=" then some (x.drop 4).toString else none).getD "").splitOn ",").map intOf
     let adv : Params := { maxData := advL.getD 0 0, bidiLocal := advL.getD 1 0, bidiRemote := advL.getD 2 0, uni := advL.getD 3 0 }
     let cfg : Config := ⟨intOf srw, intOf smax, intOf crw, intOf cmax⟩
-    -- what may legitimately be enforced: the configured window or the largest advertised one, whichever is larger
-    let hiC := max cfg.initialConnectionReceiveWindow adv.maxData
-    -- the connection window the implementation shows must cover what was advertised
+    -- the connection window the implementation shows must be exactly what was advertised
+    let hiC := adv.maxData
     let f0 := match dumpField impl 5 with
-      | some rw => if rw < adv.maxData || rw > hiC then
+      | some rw => if rw ≠ adv.maxData then
           [fail "initial_windows_match_parameters" s!"spec-driven client: connection receive window {rw}, advertised initial_max_data {adv.maxData}, configured {cfg.initialConnectionReceiveWindow}"] else []
       | none => []
     echo { g with started := true, client := true, peer := peer, cfg := cfg, spec := some adv,
-                  cAdv := adv.maxData, cAdvHi := hiC,
+                  cAdv := adv.maxData,
                   cMaxws := max hiC (max (intOf cmax) hiC),
                   cCredit := peer.maxData, cCredits := [peer.maxData] } ["uinit"] f0
   | ["open", kind] =>
@@ -193,22 +190,23 @@ def step (g : G) (op impl : String) : G × StepOut :=
       | none => g.cfg.initialStreamReceiveWindow
       | some a => match kind with
         | "lb" => a.bidiLocal | "pb" => a.bidiRemote | _ => a.uni
+    -- the largest window the auto-tuner may ever reach (a spec-driven client: the configured maximum or any advertised window)
     let hiRw : Int := match g.spec with
       | none => g.cfg.initialStreamReceiveWindow
       | some a => max g.cfg.initialStreamReceiveWindow (max a.bidiLocal (max a.bidiRemote a.uni))
     -- ... and the model of the closure (from the stream id the implementation chose)
     let mSw := newFlowControllerSendWindow g.client g.peer id
-    let mRw := ((newFlowControllerReceiveWindow ecfg).map (·.1)).getD (-1)
+    let mRw := ((newFlowControllerReceiveWindow ecfg g.spec g.client id).map (·.1)).getD (-1)
     let idOk := (isUni id == (kind == "lu" || kind == "pu")) &&
       (byClient id == (if kind == "lb" || kind == "lu" then g.client else !g.client))
     let f0 := if !idOk then [fail "initial_windows_match_parameters" s!"open {kind}: stream id {id} is not of that kind (client={g.client})"] else []
     let f1 := if hasSend && fld "sw=" != toString wantSw then
       [fail "initial_windows_match_parameters" s!"open {kind} (stream {id}, client={g.client}): initial send window {fld "sw="}, the peer's parameter for this kind of stream is {wantSw} (bidi_local {g.peer.bidiLocal}, bidi_remote {g.peer.bidiRemote}, uni {g.peer.uni})"] else []
     let gotRw := intOf (fld "rw=")
-    let f2 := if hasRecv && (gotRw < wantRw || gotRw > hiRw) then
-      [fail "initial_windows_match_parameters" s!"open {kind} (stream {id}): initial receive window {fld "rw="}, but {wantRw} was advertised for this kind of stream (at most {hiRw} may be enforced)"] else []
+    let f2 := if hasRecv && gotRw ≠ wantRw then
+      [fail "initial_windows_match_parameters" s!"open {kind} (stream {id}): initial receive window {fld "rw="}, but {wantRw} was advertised for this kind of stream"] else []
     let g1 := if hasSend then { g with snd := g.snd ++ [{ credit := wantSw, credits := [wantSw] }] } else g
-    let g2 := if hasRecv then { g1 with rcv := g1.rcv ++ [{ adv := wantRw, advHi := hiRw, maxws := max hiRw (max g.cfg.maxStreamReceiveWindow hiRw) }] } else g1
+    let g2 := if hasRecv then { g1 with rcv := g1.rcv ++ [{ adv := wantRw, maxws := max hiRw (max g.cfg.maxStreamReceiveWindow hiRw) }] } else g1
     let model := " ".intercalate (res.map fun x =>
       if x.startsWith "sw=" && hasSend then s!"sw={mSw}" else if x.startsWith "rw=" && hasRecv then s!"rw={mRw}" else x)
     let (g3, out) := echo g2 [s!"open:{kind}"] (f0 ++ f1 ++ f2)
@@ -231,7 +229,15 @@ def step (g : G) (op impl : String) : G × StepOut :=
     let (g', fails, tags) := res.foldl (fun (acc : G × List Fail × List String) tok =>
       let (g1, f1, t1) := packToken acc.1 tok
       (g1, acc.2.1 ++ f1, acc.2.2 ++ t1)) (g, [], [])
-    echo g' (if tags.isEmpty then ["pack:empty"] else tags) fails
+    -- no stall: a receive stream whose application has consumed everything the peer was told it may send has a
+    -- MAX_STREAM_DATA queued (ReceiveStream.readImpl → flowController.AddBytesRead → hasWindowUpdate); stream control
+    -- frames are packed first, so a full-size packet (10 streams × at most 4 control frames of ≤ 25 bytes) carries it
+    let big := decide (intOf ((words op).getD 1 "0") ≥ 1200)
+    let stall : List Fail := if !big || g'.dead then [] else
+      (g'.rcv.zipIdx.filter (fun (r, _) => r.updDue)).map fun (r, j) =>
+        fail "no_stall" s!"receive stream {j}: the application has consumed all {r.appRead} bytes the peer was told it may send (limit {r.adv}), but no MAX_STREAM_DATA is in the next full-size packet: the peer is blocked for good"
+    let g'' := if big then { g' with rcv := g'.rcv.map fun r => { r with updDue := false } } else g'
+    echo g'' (if tags.isEmpty then ["pack:empty"] else tags) (fails ++ stall)
   | ["lost", _] => echo g ["lost"] []
   | ["acked", _] => echo g ["acked"] []
   | ["frame", j, off, len, fin, _] =>
@@ -249,7 +255,8 @@ def step (g : G) (op impl : String) : G × StepOut :=
       let fails := if expect ≠ "" && got ≠ expect then
         [fail "receiver_exact" s!"receive stream {j}: frame up to offset {e} fin={fin} answered {got}, expected {expect} (announced stream limit {r.adv}, highest {r.highest}, final {r.final}, announced connection limit {g.cAdv}, connection total {sumI (g.rcv.map (·.highest))})"] else []
       if got == "ok" then
-        echo { g with rcv := g.rcv.set j { r with highest := max r.highest e, final := if fin then some e else r.final } }
+        let r' : RcvG := { r with highest := max r.highest e, final := if fin then some e else r.final, updDue := r.updDue && !fin }
+        echo { g with rcv := g.rcv.set j r' }
           [if e > r.highest then "frame:new" else "frame:old"] fails
       else echo { g with dead := true } [s!"frame:{got}"] fails
   | ["rst", j, fs, rel, _] =>
@@ -271,8 +278,8 @@ def step (g : G) (op impl : String) : G × StepOut :=
         let newRel := if (!r.reset && r.reliable == 0) || rel < r.reliable then rel else r.reliable
         let r' : RcvG := if r.cancelled then
             -- a read side that was cancelled locally ignores the reset error; the stream completes and abandons the rest
-            { r with highest := max r.highest e, final := some e, reliable := newRel } else
-          { r with highest := max r.highest e, final := some e, reset := true, reliable := newRel }
+            { r with highest := max r.highest e, final := some e, reliable := newRel, updDue := false } else
+          { r with highest := max r.highest e, final := some e, reset := true, reliable := newRel, updDue := false }
         echo { g with rcv := g.rcv.set j r' }
           [if rel = 0 then "rst:ok" else if rel > r.appRead then "rst:reliable-ahead" else "rst:reliable-behind"] fails
       else echo { g with dead := true } [s!"rst:{got}"] fails
@@ -281,21 +288,63 @@ def step (g : G) (op impl : String) : G × StepOut :=
     match g.rcv[j]?, res with
     | some r, n :: st :: _ =>
       let k := intOf (n.drop 2).toString
-      echo { g with rcv := g.rcv.set j { r with appRead := r.appRead + k } } [s!"rd:{st}"] []
+      let ar := r.appRead + k
+      -- everything the peer was told it may send on this stream has been consumed, and more is to come
+      let due := r.updDue || (decide (k > 0) && decide (ar ≥ r.adv) && r.final.isNone && !r.cancelled && !r.reset && !g.dead)
+      echo { g with rcv := g.rcv.set j { r with appRead := ar, updDue := due } }
+        ([s!"rd:{st}"] ++ (if due && !r.updDue then ["rd:credit-used-up"] else [])) []
     | _, _ => echo g [] []
+  | ["rdb", _, _] => echo g ["rdb"] []
   | ["cancel", j] =>
     let j := natOf j
     match g.rcv[j]? with
     | none => echo g [] []
-    | some r => echo { g with rcv := g.rcv.set j { r with cancelled := true } } ["cancel"] []
+    | some r => echo { g with rcv := g.rcv.set j { r with cancelled := true, updDue := false } } ["cancel"] []
   | ["cupd", _] =>
     let v := intOf (res.headD "0")
-    if v = 0 then echo g ["cupd:none"] [] else
+    let tot0 := sumI (g.rcv.map (·.credited))
+    -- no stall: once everything the peer was told it may send on the connection has been consumed, MAX_DATA is due
+    if v = 0 then echo g ["cupd:none"] (if !g.dead && tot0 > 0 && tot0 ≥ g.cAdv then
+      [fail "no_stall" s!"connection: all {tot0} bytes the peer was told it may send (MAX_DATA {g.cAdv}) have been consumed, but no MAX_DATA is due: the peer is blocked for good"] else []) else
     let f1 := if v < g.cAdv then [fail "advertised_monotone" s!"connection: MAX_DATA {v} after {g.cAdv}"] else []
     let tot := sumI (g.rcv.map (·.credited))
     let f2 := if !g.dead && v > tot + g.cMaxws then
       [fail "advertised_honest" s!"connection: MAX_DATA {v} > consumed {tot} + maximum window {g.cMaxws}"] else []
-    echo { g with cAdv := max g.cAdv v, cAdvHi := max g.cAdvHi v } ["cupd:update"] (f1 ++ f2)
+    echo { g with cAdv := max g.cAdv v } ["cupd:update"] (f1 ++ f2)
   | _ => (g, { model := impl })
+
+/-- Reads started by `rdb` that have returned (` rdone:<rid>:<k>:<outcome>` at the end of a result): the bytes
+    they consumed count as read by the application. -/
+def applyDone (g : G) (main : String) : G × List String :=
+  (words main).foldl (fun (acc : G × List String) tok =>
+    match tok.splitOn ":" with
+    | "rdone" :: j :: k :: st =>
+      let j := natOf j
+      match acc.1.rcv[j]? with
+      | some r => ({ acc.1 with rcv := acc.1.rcv.set j { r with appRead := r.appRead + intOf k } },
+                   acc.2 ++ [s!"rdone:{":".intercalate st}" ++ (if intOf k > 0 then ":data" else "")])
+      | none => acc
+    | _ => acc) (g, [])
+
+/-- `batch a ; b ; c` = the operations back to back (results `ra ; rb ; rc`); the connection dump (and with it
+    the per-operation checks on it) belongs to the last one. -/
+def step (g : G) (op impl : String) : G × StepOut :=
+  let parts := impl.splitOn " | "
+  let main := parts.headD ""
+  let dump := match parts with | _ :: d :: _ => " | " ++ d | _ => ""
+  let (g0, dtags) := applyDone g main
+  if op.startsWith "batch " then
+    if main == "skip" then (g, { model := impl }) else
+    let subs := (op.drop 6).toString.splitOn " ; "
+    let ress := main.splitOn " ; "
+    let n := subs.length
+    let (g', tags, fails) := ((subs.zip ress).zipIdx).foldl (fun (acc : G × List String × List Fail) x =>
+        let (g1, o) := stepCore acc.1 x.1.1 (if x.2 + 1 == n then x.1.2 ++ dump else x.1.2)
+        (g1, acc.2.1 ++ o.tags, acc.2.2 ++ o.fails)) (g0, [], [])
+    let name := "batch:" ++ "+".intercalate (subs.map fun s => (words s).headD "")
+    (g', { model := impl, tags := [name] ++ tags ++ dtags, fails := fails })
+  else
+    let (g', o) := stepCore g0 op impl
+    (g', { o with tags := o.tags ++ dtags })
 
 def main : IO Unit := run { init := ({} : G), step := step }
